@@ -1706,6 +1706,8 @@ fn toks_text(c: &mut Concretiser, toks: &J, style: usize) -> String {
                 }
                 out.push('(');
             }
+            // the line break token is written in both spellings the grammar knows (LF, CR LF)
+            "nl" => token(c, if (c.salt + i) % 3 == 1 { "crlf" } else { "nl" }, &mut out),
             other => token(c, other, &mut out),
         }
         if !last {
